@@ -108,6 +108,8 @@ type Chain struct {
 	evCh     chan mempoolevent.Event
 	// every transaction / notary request accepted from a member (content keys)
 	onTx     func(member int, tx *transaction.Transaction, notaryMain bool)
+	keyMu    sync.Mutex
+	txKeys   map[util.Uint256]string // hash → content key of every transaction a member has sent
 	onReject func(member int, tx *transaction.Transaction, err error)
 }
 
@@ -324,6 +326,26 @@ func (c *Chain) SetCommitteeNEO(amount int64) {
 	if err != nil || len(aers) == 0 || aers[0].VMState != vmstate.Halt {
 		harnessf("NEO set-up transfer failed: %v %v", err, aers)
 	}
+}
+
+// noteTx remembers the content key of a transaction a member sends, so that
+// later questions about its (unreproducible) hash can be named canonically.
+func (c *Chain) noteTx(tx *transaction.Transaction, key string) {
+	c.keyMu.Lock()
+	if c.txKeys == nil {
+		c.txKeys = map[util.Uint256]string{}
+	}
+	c.txKeys[tx.Hash()] = key
+	c.keyMu.Unlock()
+}
+
+func (c *Chain) keyOfHash(h util.Uint256) string {
+	c.keyMu.Lock()
+	defer c.keyMu.Unlock()
+	if k, ok := c.txKeys[h]; ok {
+		return k
+	}
+	return "?"
 }
 
 // contentKey is a nonce/hash independent canonical key of a transaction.
